@@ -12,6 +12,7 @@ import (
 	"strings"
 	"sync"
 	"time"
+	_ "time/tzdata" // tz-database Locations without relying on the host
 
 	"github.com/tormoder/fit"
 
@@ -111,6 +112,27 @@ var (
 	lngType  = reflect.TypeOf(fit.Longitude{})
 )
 
+var (
+	locMu sync.Mutex
+	locs  = map[string]*time.Location{}
+)
+
+// Location returns the named tz-database Location (from the time zone data
+// embedded through time/tzdata), nil if it does not exist.
+func Location(name string) *time.Location {
+	locMu.Lock()
+	defer locMu.Unlock()
+	if l, ok := locs[name]; ok {
+		return l
+	}
+	l, err := time.LoadLocation(name)
+	if err != nil {
+		l = nil
+	}
+	locs[name] = l
+	return l
+}
+
 // FromReflect converts a message field value into the neutral form.
 func FromReflect(v reflect.Value) fitmodel.Val {
 	switch v.Type() {
@@ -159,7 +181,15 @@ func SetReflect(dst reflect.Value, v fitmodel.Val) {
 	switch dst.Type() {
 	case timeType:
 		t := time.Unix(v.I, 0).UTC()
-		if v.Off != 0 || v.S == "local" {
+		switch {
+		case strings.HasPrefix(v.S, "tz:"):
+			// a tz-database Location: its offset depends on the instant
+			if loc := Location(v.S[3:]); loc != nil {
+				t = t.In(loc)
+			} else {
+				t = t.In(time.FixedZone("VERIF", v.Off))
+			}
+		case v.Off != 0 || v.S == "local":
 			t = t.In(time.FixedZone("VERIF", v.Off))
 		}
 		dst.Set(reflect.ValueOf(t))
